@@ -109,6 +109,13 @@ func (q *ShardQueue) Close() error {
 	}
 	// wait for all tasks finished
 	for atomic.LoadInt32(&q.state) != closed {
+		// A getter whose Add did not trigger (its shard was already non-empty) is
+		// only counted in trigger once the Add that has to trigger got that far,
+		// so an empty trigger is not enough: the shards must have been drained too.
+		if q.pending() {
+			runtime.Gosched()
+			continue
+		}
 		if atomic.LoadInt32(&q.trigger) == 0 {
 			atomic.StoreInt32(&q.state, closed)
 			return nil
@@ -116,6 +123,19 @@ func (q *ShardQueue) Close() error {
 		runtime.Gosched()
 	}
 	return nil
+}
+
+// pending reports whether any shard still holds getters not yet taken by the worker.
+func (q *ShardQueue) pending() bool {
+	for shard := int32(0); shard < q.size; shard++ {
+		q.lock(shard)
+		n := len(q.getters[shard])
+		q.unlock(shard)
+		if n > 0 {
+			return true
+		}
+	}
+	return false
 }
 
 // triggering shard.
@@ -163,6 +183,14 @@ func (q *ShardQueue) foreach() {
 		atomic.StoreInt32(&q.runNum, 0)
 		if atomic.LoadInt32(&q.trigger) > 0 {
 			q.foreach()
+			return
+		}
+		// Only mark the queue closed if, after Close has been observed, no shard is
+		// pending: trigger may have been raised since the check above by an Add that
+		// completed before Close was called. The worker started by that Add (runNum
+		// is already 0) marks the queue closed when it exits; if Close has not been
+		// called yet, Close itself does once trigger is 0.
+		if atomic.LoadInt32(&q.state) != closing || atomic.LoadInt32(&q.trigger) > 0 || q.pending() {
 			return
 		}
 		// if state is closing, change it to closed
